@@ -72,6 +72,8 @@ M = [
  ('C10-m11', 'C10', CORE + 'entities/json/value.rs', '                                None if expected_attr_ty.is_required() => Some(Err(', '                                None if expected_attr_ty.is_required() && false => Some(Err('),
  ('C10-m12', 'C10', CORE + 'entities/json/value.rs', '                    if !open_attrs {\n                        // we\'ve now checked', '                    if *open_attrs {\n                        // we\'ve now checked'),
  ('C10-m13', 'C10', CORE + 'entities/json/value.rs', 'match self.val_into_restricted_expr(actual_attr, Some(expected_attr_ty.schema_type()), ctx) {', 'match self.val_into_restricted_expr(actual_attr, None, ctx) {'),
+ ('C09-m6', 'C09', CORE + 'validator/cedar_schema/to_json_schema.rs', 'member_of_types: d.member_of_types.into_iter().map(RawName::from).collect(),', 'member_of_types: d.member_of_types.into_iter().skip(1).map(RawName::from).collect(),'),
+ ('C09-m7', 'C09', CORE + 'validator/cedar_schema/to_json_schema.rs', '                    tags: d.tags.map(cedar_type_to_json_type),', '                    tags: d.tags.filter(|_| false).map(cedar_type_to_json_type),'),
  ('C17-m1', 'C17', CORE + 'validator/entity_manifest.rs', '            if matches!(op, BinaryOp::In) {', '            if false && matches!(op, BinaryOp::In) {'),
  ('C17-m2', 'C17', CORE + 'validator/entity_manifest.rs', '            .union(entity_manifest_from_expr(then_expr)?)\n            .union(entity_manifest_from_expr(else_expr)?)),', '            .union(entity_manifest_from_expr(then_expr)?)),'),
  ('C17-m3', 'C17', CORE + 'validator/entity_manifest.rs', '        ExprKind::HasAttr { expr, attr } => Ok(entity_manifest_from_expr(expr)?\n            .get_or_has_attr(attr)\n            .empty_paths()),', '        ExprKind::HasAttr { expr, attr: _ } => Ok(entity_manifest_from_expr(expr)?\n            .empty_paths()),'),
